@@ -191,7 +191,8 @@ def parts(ctx):
                mid_ops=_binary_or_less, top_ops=_binary_or_less, max_new=1))
         A(dict(name="bv4-d1", profile=lambda e: P.bv_profile(e, (4,)), depth=1, shards=8))
     # ---- strings
-    A(dict(name="str-d1", profile=lambda e: P.str_profile(e, strs=("", "a", "ab", "abc", "12", "-5", " 1", "1_0", "+3")),
+    A(dict(name="str-d1", profile=lambda e: P.str_profile(e, strs=("", "a", "ab", "abc", "12", "-5", " 1", "1_0", "+3",
+                                                                      "\u0663", "1\u0663", "\u00b2", "\uff11")),
            depth=1, shards=8))
     A(dict(name="str-d2", profile=lambda e: P.str_profile(e, strs=("", "ab") if q else ("", "ab", "12"),
                                                           ints=(-1, 0, 1) if q else (-1, 0, 1, 2)), depth=2,
